@@ -39,7 +39,7 @@ macro_rules! parse_back {
 pub fn pli<S: Src>(s: &mut S) {
     let c = FbCfg::draw(s, false);
     let f = Pli::builder();
-    let mut buf = [0u8; 272];
+    let mut buf = [0xA5u8; 272];
     match build(&c, &f, &mut buf) {
         Ok(n) => {
             let p = parse_back!(PayloadFeedback, c, FMT_PLI, buf, n);
@@ -57,7 +57,7 @@ pub fn sli<S: Src, const N: usize, const B: usize>(s: &mut S) {
     let e = SliCfg::<N>::draw(s);
     let k = s.upto(if N > 0 { N - 1 } else { 0 });
     let f = e.builder();
-    let mut buf = [0u8; B];
+    let mut buf = [0xA5u8; B];
     let r = build(&c, &f, &mut buf);
     forget(f);
     match r {
@@ -97,7 +97,7 @@ pub fn rpsi<S: Src, const L: usize, const B: usize>(s: &mut S) {
     let e = RpsiCfg::draw_with(s, bits);
     let q = s.upto(8 * L);
     let f = e.builder();
-    let mut buf = [0u8; B];
+    let mut buf = [0xA5u8; B];
     match build(&c, &f, &mut buf) {
         Ok(n) => {
             let p = parse_back!(PayloadFeedback, c, FMT_RPSI, buf, n);
@@ -131,7 +131,7 @@ pub fn nack<S: Src, const N: usize, const B: usize>(s: &mut S) {
         f = f.add_rtp_sequence(seqs[i]);
         i += 1;
     }
-    let mut buf = [0u8; B];
+    let mut buf = [0xA5u8; B];
     let r = build(&c, &f, &mut buf);
     forget(f);
     match r {
@@ -221,7 +221,7 @@ pub fn fir<S: Src, const SYMBOLIC: bool>(s: &mut S) {
     } else {
         Fir::builder().add_ssrc(1, 1).add_ssrc(0xffff_fffe, 2).add_ssrc(1, 9).add_ssrc(77, 3)
     };
-    let mut buf = [0u8; 56];
+    let mut buf = [0xA5u8; 56];
     let r = build(&c, &f, &mut buf);
     forget(f);
     match r {
